@@ -1,3 +1,11 @@
-/-  C12/Theorems — the ledger for property C12 (every theorem here is audited).  Placeholder. -/
+/-  C12/Theorems — the ledger for property C12 (every theorem here is audited). -/
+import OttoVerif.C12.Spec
+import OttoVerif.C12.Model
 namespace OttoVerif.C12.Thm
+open OttoVerif.C12
+
+theorem dayFromYear_step (y : Int) : Spec.DayFromYear (y + 1) - Spec.DayFromYear y = Spec.DaysInYear y := by
+  unfold Spec.DayFromYear Spec.DaysInYear
+  split <;> (try split) <;> (try split) <;> omega
+
 end OttoVerif.C12.Thm
